@@ -171,11 +171,40 @@ func liveAfterPhis(fn *ssa.Function) map[*ssa.BasicBlock]map[ssa.Value]bool {
 }
 
 // pruneDead drops from st everything known about values that are dead at the top of st.block (after its phis).
+// fieldCanon: the values a function stores into fields of its local structs. A later load of such a field is read as the
+// stored value (canonBool), so what a branch learned about the value has to outlive the value's own last use.
+var fieldCanonMemo = map[*ssa.Function]map[ssa.Value]bool{}
+
+func fieldCanon(fn *ssa.Function) map[ssa.Value]bool {
+	if m, ok := fieldCanonMemo[fn]; ok {
+		return m
+	}
+	m := map[ssa.Value]bool{}
+	for _, b := range fn.Blocks {
+		for _, in := range b.Instrs {
+			st, ok := in.(*ssa.Store)
+			if !ok {
+				continue
+			}
+			fa, ok := st.Addr.(*ssa.FieldAddr)
+			if !ok {
+				continue
+			}
+			if _, local := fa.X.(*ssa.Alloc); local {
+				m[st.Val] = true
+			}
+		}
+	}
+	fieldCanonMemo[fn] = m
+	return m
+}
+
 func pruneDead(st *PathState, q *PathQ) {
 	fn := st.block.Parent()
 	live := liveAfterPhis(fn)[st.block]
+	keep := fieldCanon(fn)
 	for v := range st.consts {
-		if !live[v] && !q.initial[v] {
+		if !live[v] && !q.initial[v] && !keep[v] {
 			if DebugDead != nil {
 				if st.dead == nil {
 					st.dead = map[ssa.Value]int{}
